@@ -654,6 +654,10 @@ func (k *checker) judgeCase(w *world, cs caseSpec) {
 	if cs.Surface == "admin" {
 		key = fmt.Sprintf("admin:%s_%s:%s:%s", cs.Method, ri.Route, cclass, kind)
 	}
+	if !k.firstOf("violation " + key) {
+		r.Add("violating_rows_beyond_first_per_key", 1)
+		return
+	}
 	full := fmt.Sprintf("%s\n  config: %s\n  request: %s [%s]\n  authorization (%s): %q\n  effective allowlist: %q (reference verdict %s)\n  observed: code=%d state_changed=%v data_returned=%v",
 		msg, cs.Cfg.label(), requestLine(cs), cs.Surface, cs.Class, cs.Creds, ri.Allow, vname, o.Code, o.Changed, o.Leak)
 	k.r.Violation(key, full, cs, func() bool {
